@@ -56,8 +56,8 @@ SameOperand(o, l, r) == o \in MatchOps /\ l = r /\ r.k \in {"str", "regex"}
 ModOverflow(o, l, r) == o = "%" /\ (Beyond63(Trunc(NumOf(l))) \/ Beyond63(Trunc(NumOf(r))))
 AnyOutcome == [ok |-> TRUE, v |-> [k |-> "any"]]
 Devs(o, l, r) ==
-  (IF ModOverflow(o, l, r) THEN <<[name |-> "mod-int-overflow", mode |-> "", res |-> AnyOutcome]>> ELSE <<>>) \o
   (IF ZeroDividend(o, l, r) THEN <<[name |-> "zero-dividend", mode |-> "", res |-> Err]>> ELSE <<>>) \o
+  (IF ModOverflow(o, l, r) THEN <<[name |-> "mod-int-overflow", mode |-> "", res |-> AnyOutcome]>> ELSE <<>>) \o
   (IF SameOperand(o, l, r) /\ Match(o, l, r) # Ok(VBool(o = "~"))
      THEN <<[name |-> "same-operand-match", mode |-> "same", res |-> Ok(VBool(o = "~"))]>> ELSE <<>>)
 
@@ -81,7 +81,6 @@ Vec == done =>
 B(res) == res.v.b                      \* the boolean of an Ok(bool) result
 IsBool(res) == res.ok /\ res.v.k = "bool"
 Plain(v) == v.k \notin {"unset", "arr", "obj"}
-NumEq(x, y) == x.k = "num" /\ y.k = "num" /\ x.n = y.n /\ x.d = y.d /\ x.e = y.e   \* ignoring the sign of zero
 
 \* --- an independent, kind-by-kind description of "num(v) = 0" and "|num(v)| < 1"
 NumericStringValues ==
